@@ -2,7 +2,8 @@
    Only statements here; proofs live in Proofs/LSDBProofs.v. Model: Model/LSDB.v (the repaired
    lsdb.go: PSNP entries handled like CSNP entries; a newer copy of the own LSP raises the sequence
    counter and requests a regeneration instead of being installed). Histories: any list of LSP /
-   CSNP / PSNP receptions on any interface with any ids, sequence numbers and lifetimes, aging
+   CSNP / PSNP receptions on any interface with any ids (full system id / pseudonode id /
+   LSP number triples), sequence numbers and lifetimes, aging
    ticks, runs of the LSP updater, forced regenerations and transmission runs; any set of
    interfaces (active with / without neighbor, passive). *)
 From Coq Require Import List Bool NArith Arith.
@@ -50,7 +51,7 @@ Print Assumptions C32_kept_until_aged_out.
    state, the database copy of a foreign LSP carries the highest sequence number received for it. *)
 Theorem C32_highest_seq_history : forall ifaces o evs0 evs k e,
   let s := run (init ifaces o) evs0 in
-  quiet evs = true -> k <> mkId o 0 -> lookup k (db s) = Some e ->
+  quiet evs = true -> k <> mkId o 0 0 -> lookup k (db s) = Some e ->
   exists e', lookup k (db (run s evs)) = Some e' /\ seq e' = max_recv k evs (seq e).
 Proof.
   intros ifaces o evs0 evs k e s Hq Hne Hl.
@@ -123,7 +124,7 @@ Print Assumptions C32_flags_invariant.
    own LSP arriving), the own LSP is in the database with at least 299 s of remaining lifetime *)
 Theorem C32_refresh_before_expiry : forall ifaces o evs,
   serviced evs = true ->
-  exists e, lookup (mkId o 0) (db (run (init ifaces o) evs)) = Some e /\ 299 <= life e.
+  exists e, lookup (mkId o 0 0) (db (run (init ifaces o) evs)) = Some e /\ 299 <= life e.
 Proof. exact refresh_before_expiry. Qed.
 Print Assumptions C32_refresh_before_expiry.
 
@@ -133,27 +134,57 @@ Print Assumptions C32_refresh_before_expiry.
 Theorem C32_own_seq_dominates : forall ifaces o evs,
   nowrap_from (init ifaces o) evs ->
   let s := run (init ifaces o) evs in
-  let m := max_recv (mkId o 0) evs 0 in
+  let m := max_recv (mkId o 0 0) evs 0 in
   m <= counter s /\
-  (exists e, lookup (mkId o 0) (db (step s Regen)) = Some e /\ seq e = counter s + 1 /\ m < seq e) /\
+  (exists e, lookup (mkId o 0 0) (db (step s Regen)) = Some e /\ seq e = counter s + 1 /\ m < seq e) /\
   (pending s = true ->
-   exists e, lookup (mkId o 0) (db (step s Service)) = Some e /\ seq e = counter s + 1 /\ m < seq e).
+   exists e, lookup (mkId o 0 0) (db (step s Service)) = Some e /\ seq e = counter s + 1 /\ m < seq e).
 Proof. exact own_seq_dominates. Qed.
 Print Assumptions C32_own_seq_dominates.
+
+(* ---- LSP ids are the FULL (system id, pseudonode id, LSP number) triples everywhere: the lookups
+   and the "mentioned in the CSNP" test use equality on all three components, the CSNP range test a
+   total order on all three. All theorems above therefore distinguish ids that differ only in the
+   LSP number (fragments of one LSP) or only in the pseudonode id. *)
+Theorem C32_ids_are_full : forall a b,
+  (id_eqb a b = true <-> a = b) /\
+  (id_leb a b = true -> id_leb b a = true -> a = b) /\
+  (id_leb a b = true \/ id_leb b a = true).
+Proof.
+  intros a b. split; [apply id_eqb_eq |]. split; [apply id_leb_antisym | apply id_leb_total].
+Qed.
+Print Assumptions C32_ids_are_full.
 
 (* Non-vacuity. Three interfaces (two with a neighbor, one passive), own system 2. *)
 Definition ex_ifs := [mkIf false true; mkIf false true; mkIf true false].
 Example C32_example_history :
-  let a := mkId 1 0 in
-  let evs := [RecvLSP 0 a 3 5; RecvLSP 1 a 2 9; RecvCSNP 1 (mkId 0 0) (mkId 9 9) [(a, 4, 7)];
-              RecvLSP 0 (mkId 2 0) 7 100] in
+  let a := mkId 1 0 0 in
+  let evs := [RecvLSP 0 a 3 5; RecvLSP 1 a 2 9; RecvCSNP 1 (mkId 0 0 0) (mkId 9 9 9) [(a, 4, 7)];
+              RecvLSP 0 (mkId 2 0 0) 7 100] in
   let s := run (init ex_ifs 2) evs in
   lookup a (db s) = Some (mkE 3 5 [] [1%nat; 0%nat]) /\ counter s = 7 /\ pending s = true /\
-  (exists e, lookup (mkId 2 0) (db (step s Service)) = Some e /\ seq e = 8) /\
+  (exists e, lookup (mkId 2 0 0) (db (step s Service)) = Some e /\ seq e = 8) /\
   quiet evs = true /\ max_recv a evs 0 = 3.
 Proof. vm_compute. repeat split; try reflexivity. eexists. split; reflexivity. Qed.
 
+(* Fragments: R.00-00 and R.00-01 arrive on interface 0 and are acknowledged by interface 1 (so
+   their SRM on 1 is clear). A CSNP on interface 1 over the whole range that lists only R.00-00
+   flags the missing fragment R.00-01 for interface 1 and leaves R.00-00 alone; a CSNP whose range
+   ends at R.00-00 does not touch R.00-01 (it lies outside the range). *)
+Example C32_example_fragments :
+  let r0 := mkId 1 0 0 in let r1 := mkId 1 0 1 in
+  let learn := [RecvLSP 0 r0 3 9; RecvLSP 0 r1 5 9; RecvPSNP 1 [(r0, 3, 9); (r1, 5, 9)]] in
+  let s := run (init ex_ifs 2) learn in
+  let full := step s (RecvCSNP 1 (mkId 0 0 0) (mkId 9 9 9) [(r0, 3, 9)]) in
+  let part := step s (RecvCSNP 1 (mkId 0 0 0) r0 [(r0, 3, 9)]) in
+  (exists e, lookup r1 (db s) = Some e /\ srm e = []) /\
+  (exists e, lookup r1 (db full) = Some e /\ srm e = [1%nat]) /\
+  (exists e, lookup r0 (db full) = Some e /\ srm e = []) /\
+  (exists e, lookup r1 (db part) = Some e /\ srm e = []) /\
+  id_eqb r0 r1 = false /\ id_leb r0 r1 = true /\ id_leb r1 r0 = false.
+Proof. vm_compute. repeat split; try reflexivity; eexists; split; reflexivity. Qed.
+
 Example C32_example_serviced :
-  serviced [Tick; Service; RecvLSP 0 (mkId 2 0) 9 3; Tick; Service] = true /\
+  serviced [Tick; Service; RecvLSP 0 (mkId 2 0 0) 9 3; Tick; Service] = true /\
   serviced [Tick; Tick] = false.
 Proof. split; reflexivity. Qed.
